@@ -1491,7 +1491,11 @@ async fn execute_command<T: Into<String>>(
     cmd.post_execute = Some(|shell| shell.env_mut().pop_scope(EnvironmentScope::Command));
 
     // Run through any pre-execution hooks as best effort.
-    let _ = commands::on_preexecute(&mut cmd).await;
+    if let Ok(Some(exit_result)) = commands::on_preexecute(&mut cmd).await {
+        // The DEBUG trap handler called `exit`: the command is not run.
+        cmd.discard();
+        return Ok(ExecutionSpawnResult::Completed(exit_result));
+    }
 
     // Execute
     // TODO(jobs): do we need to move self back to foreground on error here?
